@@ -114,6 +114,10 @@ func init() {
 		}
 		return nil
 	}
+	harnessAPI["verifNoReach"] = func(ex *Exec, fr *frame, a []value) value {
+		ex.ps.reached["!"+a[0].(string)] = true
+		return nil
+	}
 	harnessAPI["verifObserve"] = func(ex *Exec, fr *frame, a []value) value {
 		var sb strings.Builder
 		sb.WriteString(a[0].(string))
